@@ -132,6 +132,48 @@ func anyNestedFits(e expectedAt, t reference.Target, depth int) bool {
 	return false
 }
 
+// paramTypeAtCursor returns the type of the parameter whose argument slot holds the
+// cursor: the call is directly the value of an any-expression attribute, the function
+// is known, the cursor lies between its parentheses, the slot index is the number of
+// commas of this call typed before the cursor, and the argument under the cursor (if
+// one is written there) is a plain traversal or literal.
+func paramTypeAtCursor(call *hclsyntax.FunctionCallExpr, funcs map[string]m.FuncM, text string, off int, cons m.ConsM) (cty.Type, bool) {
+	var cs []m.ConsM
+	flattenCons(cons, &cs)
+	if len(cs) != 1 || cs[0].K != "any" {
+		return cty.NilType, false
+	}
+	fn, ok := funcs[call.Name]
+	if !ok {
+		return cty.NilType, false
+	}
+	if call.OpenParenRange.End.Byte > off || call.CloseParenRange.Start.Byte < off || call.CloseParenRange.Start.Byte <= call.OpenParenRange.Start.Byte {
+		return cty.NilType, false
+	}
+	slot := 0
+	for _, arg := range call.Args {
+		ar := arg.Range()
+		if ar.Start.Byte <= off && off <= ar.End.Byte {
+			switch arg.(type) {
+			case *hclsyntax.ScopeTraversalExpr, *hclsyntax.LiteralValueExpr:
+			default:
+				return cty.NilType, false
+			}
+			break
+		}
+		if ar.End.Byte < off && strings.Contains(text[ar.End.Byte:off], ",") {
+			slot++
+		}
+	}
+	switch {
+	case slot < len(fn.Params):
+		return fn.Params[slot].Ty.Cty(), true
+	case fn.VarParam != nil:
+		return fn.VarParam.Ty.Cty(), true
+	}
+	return cty.NilType, false
+}
+
 func checkC08(c C08Case) Result {
 	var r Result
 	w, pi := SafeBuild(func() *world.World { return world.Build(c.World) })
@@ -195,9 +237,18 @@ func checkC08(c C08Case) Result {
 			r.Evals++
 			// the expectation is only known when the value is a plain traversal / empty
 			exp := expectedAt{}
-			switch a.Expr.(type) {
+			inCallArg := false
+			switch e := a.Expr.(type) {
 			case *hclsyntax.ScopeTraversalExpr, *hclsyntax.LiteralValueExpr, *hclsyntax.ExprSyntaxError:
 				exp = expectationFor(as.Cons)
+			case *hclsyntax.FunctionCallExpr:
+				// inside the parentheses of a call of a known function the parameter of the
+				// argument slot holding the cursor decides what fits
+				if pt, ok := paramTypeAtCursor(e, p.Funcs, text, off, as.Cons); ok {
+					exp = expectedAt{known: true, types: []cty.Type{pt}}
+					inCallArg = true
+					r.Class("cursor-in-call-argument")
+				}
 			}
 			cursorPos := FilePos(w, 0, f.Name, off)
 			for i, cd := range cands.List {
@@ -264,7 +315,9 @@ func checkC08(c C08Case) Result {
 								fit = &abs[k]
 							}
 						}
-						if fit != nil && roundTrips < 4 {
+						// (not inside call arguments: text inserted in front of a following argument
+						// such as ["x"] fuses with it into an index expression)
+						if fit != nil && roundTrips < 4 && !inCallArg {
 							roundTrips++
 							newText := text[:rg.Start.Byte] + cd.TextEdit.NewText + text[rg.End.Byte:]
 							wm := cloneWorld(c.World)
@@ -322,7 +375,11 @@ func checkC08(c C08Case) Result {
 					if exp.known && (cd.Label == "true" || cd.Label == "false") {
 						admits := false
 						var cs []m.ConsM
-						flattenCons(as.Cons, &cs)
+						if inCallArg {
+							cs = []m.ConsM{{K: "any", Ty: m.TyOf(exp.types[0])}}
+						} else {
+							flattenCons(as.Cons, &cs)
+						}
 						for _, x := range cs {
 							if (x.K == "any" || x.K == "littype") && (x.Ty.Cty() == cty.Bool || x.Ty.Cty() == cty.DynamicPseudoType) {
 								admits = true
